@@ -288,7 +288,8 @@ class SimpleDictDocument(DictDocument):
 
                     cinst = ninst
 
-                cfreq_key = cfreq_key + (ncls, nidx)
+                # the member name tells two members of the same class apart.
+                cfreq_key = cfreq_key + (ncls, (pkey, nidx))
                 idx = nidx
                 ctype_info = ncls.get_flat_type_info(ncls)
 
